@@ -127,6 +127,11 @@ def cfgBits : List (String × String × Nat) := [("DeviceConfiguration", "is_mul
 def cfgOps : List (String × String × Nat) :=
   [("set_multi_event_enable_bit", "set_bit", 1), ("disable_multi_event", "unset_bit", 1)]
 
+/-- the capability / configuration words are 64-bit registers, the manifest file-info word 32-bit
+(newtype of the crate ↦ numeric codec) -/
+def newtypes : List (String × String) :=
+  [("DeviceCapability", "u64"), ("DeviceConfiguration", "u64"), ("GenICamFileInfo", "u32"), ("U3VCapablitiy", "u64")]
+
 /-- bits `hi:lo` of a 32-bit word as (shift, mask) -/
 def bits (hi lo : Nat) : Field := ⟨lo, 2 ^ (hi + 1 - lo) - 1⟩
 
